@@ -117,6 +117,8 @@ def vec(res, states):
             return s.get(k)
         if isinstance(s, (set, frozenset)):
             return k in s
+        if s is None:
+            return False        # poison: the call raised on these inputs (the exception guard says so)
         raise see.Unsupported('result is not a set: %r' % (s,))
     return [fold_b(res, lambda s, k=k: one(s, k)) for k in states]
 
